@@ -481,3 +481,36 @@ func VerifC02_JsonNested(typeIdx, vKind, vLen, n, junk int) {
 	_ = d.Any(&v)
 	verifReach("returned")
 }
+
+// VerifC18_EnumItem: an Enumeration item carrying the tag of a registered
+// enumeration (Cryptographic Algorithm), value an arbitrary text of vLen bytes
+// (names, decimal, hexadecimal) or a number token: if accepted, it re-encodes to
+// a fixed point through encoding enc.
+func VerifC18_EnumItem(src, vKind, vLen, form, enc int) {
+	const tagName = "CryptographicAlgorithm"
+	var r reader
+	if src == 0 {
+		val, _ := c18JSONValue(vKind, vLen, "v")
+		switch x := val.(type) {
+		case string:
+			c18Form(x, form)
+		case json.Number:
+			verifAssume(refJSONNumber([]byte(string(x))))
+		}
+		m := map[string]any{"tag": tagName, "type": "Enumeration", "value": val}
+		r = &jsonReader{value: []any{m}}
+	} else {
+		val := verifNondetString("value", vLen)
+		c18Form(val, form)
+		el := xml.StartElement{Name: xml.Name{Local: tagName}}
+		el.Attr = append(el.Attr, xml.Attr{Name: xml.Name{Local: "type"}, Value: "Enumeration"}, xml.Attr{Name: xml.Name{Local: "value"}, Value: val})
+		r = &xmlReader{r: c18NoMoreXML(), elem: &el}
+	}
+	d := newDecoder(r)
+	var v Value
+	if err := d.Any(&v); err != nil {
+		return
+	}
+	verifReach("accepted")
+	c18FixedPoint(v, enc)
+}
